@@ -732,7 +732,8 @@ impl DnsListenerHandler {
             ) {
                 Ok(msg) => {
                     let in_reply = Self::recv_in_query(&q, &msg).await.unwrap();
-                    let in_reply_bytes = in_reply.serialise();
+                    let in_reply_bytes =
+                        Self::prepare_to_send(&in_reply, msg.in_query.bufsize as usize);
                     if !Self::should_ratelimit(
                         &msg,
                         &in_reply,
@@ -819,8 +820,8 @@ impl DnsListenerHandler {
             ) {
                 Ok(msg) => {
                     let in_reply = Self::recv_in_query(&q, &msg).await.unwrap();
-                    let serialised =
-                        Self::prepare_to_send(&in_reply, msg.in_query.bufsize as usize);
+                    /* The advertised payload size only limits UDP; a TCP frame carries up to 65535 octets. */
+                    let serialised = in_reply.serialise_with_size(65535);
                     let mut in_reply_bytes = Vec::with_capacity(2 + serialised.len());
                     in_reply_bytes.extend((serialised.len() as u16).to_be_bytes().iter());
                     in_reply_bytes.extend(serialised);
